@@ -341,10 +341,10 @@ func (h *H) csvCase() {
 	var headerIdx *int
 	dataIdx := 1
 	if r.Chance(0.7) {
-		headerIdx = intp(r.Between(1, 3))
-		dataIdx = *headerIdx + r.Between(1, 3)
+		headerIdx = intp(r.Between(1, 4))
+		dataIdx = *headerIdx + r.Between(1, 4)
 	} else {
-		dataIdx = r.Between(1, 3)
+		dataIdx = r.Between(1, 4)
 	}
 	simple := func() erow { // a single physical line
 		var vals [][]byte
@@ -362,12 +362,41 @@ func (h *H) csvCase() {
 		}
 		return row
 	}
+	// rows that the reader has to skip are not one physical line each: quoted cells with embedded
+	// line breaks, blank lines before a row, comment-like rows; jumpTo goes by the decoder's
+	// physical line counter, and so does the expectation below (oldSpec)
+	skipRow := func() erow {
+		row := simple()
+		if r.Chance(0.45) {
+			switch k := r.Pick(4); {
+			case k == 0 && !replace:
+				row.Fields[r.Pick(len(row.Fields))] = efield{Q: true, V: []byte([]string{"two\nlines", "a\r\nb", "x\n\ny", "\n", "q\"\nz"}[r.Pick(5)])}
+			case k == 1:
+				for i, n := 0, r.Between(1, 2); i < n; i++ {
+					row.Blanks = append(row.Blanks, r.Chance(0.4))
+				}
+			case k == 2:
+				row.Fields[0] = efield{Q: false, V: []byte("#note")}
+				if bytes.Contains(row.Fields[0].V, enc) {
+					row.Fields[0].V = []byte("#")
+				}
+			default:
+				if !replace {
+					row.Fields = append(row.Fields, efield{Q: true, V: []byte("tail\nmore")})
+				}
+				row.Blanks = append(row.Blanks, false)
+			}
+		}
+		return row
+	}
 	var pre []erow
-	line := 1
+	line := 1 // the decoder's line counter + 1 after the rows so far
 	mismatch := ""
 	if headerIdx != nil {
-		for ; line < *headerIdx; line++ {
-			pre = append(pre, simple())
+		for line < *headerIdx {
+			row := skipRow()
+			pre = append(pre, row)
+			line += rowLines(row)
 		}
 		var vals [][]byte
 		for _, c := range cols {
@@ -432,11 +461,16 @@ func (h *H) csvCase() {
 			}
 			hr.Raw = raw
 		}
+		if r.Chance(0.12) {
+			hr.Blanks = append(hr.Blanks, r.Chance(0.4))
+		}
 		pre = append(pre, hr)
-		line++
+		line += rowLines(hr)
 	}
-	for ; line < dataIdx; line++ {
-		pre = append(pre, simple())
+	for line < dataIdx {
+		row := skipRow()
+		pre = append(pre, row)
+		line += rowLines(row)
 	}
 	// data rows
 	var data []erow
@@ -471,23 +505,21 @@ func (h *H) csvCase() {
 		decl["header_row_index"] = *headerIdx
 	}
 	schema := schemaJSON("csv", decl)
-	// expected deliveries from the logical table
-	var exp []outcome
-	if mismatch != "" {
-		exp = []outcome{{Kind: "fatal"}}
-	} else {
-		for _, row := range data {
-			o := outcome{Kind: "node", Doc: true}
-			for j := 0; j < len(row.Fields) && j < ncols; j++ {
-				v := crlf2lf(row.Fields[j].V)
-				if replace {
-					v = bytes.ReplaceAll(row.Fields[j].V, []byte{'"'}, []byte{'\''})
-				}
-				o.Kids = append(o.Kids, kv{Name: cols[j].node(), Val: v})
-			}
-			exp = append(exp, o)
+	// expected deliveries: what the physical-line semantics of header_row_index / data_row_index
+	// give for these rows (the Go twin of Proofs.DelimJump.old_spec)
+	exp := oldSpec(append(append([]erow(nil), pre...), data...), cols, headerIdx, dataIdx, replace)
+	for _, row := range data {
+		if len(row.Fields) > ncols {
+			h.sum.Hist("csv-row-wider-than-declared")
 		}
-		exp = append(exp, outcome{Kind: "eof"})
+		if n := len(row.Fields); n > 1 && !row.Fields[n-1].Q && len(row.Fields[n-1].V) == 0 {
+			h.sum.Hist("csv-row-ends-with-delimiter")
+		}
+	}
+	for _, row := range pre {
+		if rowLines(row) > 1 {
+			h.sum.Hist("csv-skipped-row-spans-lines")
+		}
 	}
 	kind := "csv"
 	damaged := ""
@@ -515,7 +547,7 @@ func (h *H) csvCase() {
 	if replace {
 		h.sum.Hist("csv-replace-double-quotes")
 	}
-	h.judge(kind, desc, obs, exp, nt && mismatch == "")
+	h.judge(kind, desc, obs, exp, nt && len(exp) > 1)
 	var cs []string
 	for _, c := range cols {
 		cs = append(cs, "("+chex([]byte(c.Name))+", "+chex([]byte(c.node()))+")")
@@ -525,6 +557,89 @@ func (h *H) csvCase() {
 	desc["observed"] = outStrings(obs)
 	h.cw.Add(term, desc)
 	h.sum.Sample(desc)
+}
+
+// rowLines is the number of physical lines a row takes: the empty lines before it, its own line,
+// and the line breaks inside its quoted cells.
+func rowLines(row erow) int {
+	n := len(row.Blanks) + 1
+	if row.Raw == nil {
+		for _, f := range row.Fields {
+			if f.Q {
+				n += bytes.Count(f.V, []byte{'\n'})
+			}
+		}
+	}
+	return n
+}
+
+// jumpSpec: jumpTo(target) from line counter n reads whole rows while the counter is below target.
+func jumpSpec(n, target int, rows []erow) (used, counter int, ok bool) {
+	for n < target {
+		if used == len(rows) {
+			return used, n, false
+		}
+		n += rowLines(rows[used])
+		used++
+	}
+	return used, n, true
+}
+
+func rowValues(row erow, replace bool) [][]byte {
+	var vs [][]byte
+	for _, f := range row.Fields {
+		if replace {
+			vs = append(vs, bytes.ReplaceAll(f.V, []byte{'"'}, []byte{'\''}))
+		} else {
+			vs = append(vs, crlf2lf(f.V))
+		}
+	}
+	return vs
+}
+
+// oldSpec: the outcomes of the old csv reader on these rows.
+func oldSpec(rows []erow, cols []csvCol, headerIdx *int, dataIdx int, replace bool) []outcome {
+	n := 0
+	if headerIdx != nil {
+		used, c, ok := jumpSpec(0, *headerIdx-1, rows)
+		if !ok || used == len(rows) {
+			return []outcome{{Kind: "fatal"}}
+		}
+		hdr := rows[used]
+		if hdr.Raw != nil {
+			return []outcome{{Kind: "fatal"}}
+		}
+		vs := rowValues(hdr, replace)
+		if len(vs) < len(cols) {
+			return []outcome{{Kind: "fatal"}}
+		}
+		for i, col := range cols {
+			if strings.TrimSpace(string(vs[i])) != strings.TrimSpace(col.Name) {
+				return []outcome{{Kind: "fatal"}}
+			}
+		}
+		n = c + rowLines(hdr)
+		rows = rows[used+1:]
+	}
+	used, _, ok := jumpSpec(n, dataIdx-1, rows)
+	if !ok {
+		return []outcome{{Kind: "eof"}}
+	}
+	var exp []outcome
+	for _, row := range rows[used:] {
+		if row.Raw != nil {
+			exp = append(exp, outcome{Kind: "cont"})
+			continue
+		}
+		o := outcome{Kind: "node", Doc: true}
+		for j, v := range rowValues(row, replace) {
+			if j < len(cols) {
+				o.Kids = append(o.Kids, kv{Name: cols[j].node(), Val: v})
+			}
+		}
+		exp = append(exp, o)
+	}
+	return append(exp, outcome{Kind: "eof"})
 }
 
 // ---- streams 3-5: multi-line record templates shared by csv2, fixedlength2 (and old fixed-length) ---------
@@ -998,7 +1113,7 @@ func (h *H) fixed2Finish(p *plan, cols []fcol, input []byte, nlines int, nontriv
 		if i == p.tgt {
 			for _, c := range cols {
 				cs = append(cs, c.schema(true))
-				coqCols = append(coqCols, c.coq())
+				coqCols = append(coqCols, c.coq(len(input)+64))
 			}
 		}
 		envs = append(envs, d.schema("columns", cs))
@@ -1173,7 +1288,7 @@ func (h *H) fixed1Case() {
 		var coqCols []string
 		for _, c := range cols {
 			cs = append(cs, c.schema(false))
-			coqCols = append(coqCols, c.coq())
+			coqCols = append(coqCols, "%COL"+fmt.Sprint(len(coqCols))+"%")
 		}
 		e["columns"] = cs
 		envs = append(envs, e)
@@ -1211,7 +1326,7 @@ func (h *H) fixed1Case() {
 		var coqCols []string
 		for _, c := range cols {
 			cs = append(cs, c.schema(false))
-			coqCols = append(coqCols, c.coq())
+			coqCols = append(coqCols, "%COL"+fmt.Sprint(len(coqCols))+"%")
 		}
 		envs = append(envs, map[string]interface{}{"name": "body", "by_header_footer": map[string]interface{}{"header": bp.regex(), "footer": ep.regex()}, "columns": cs})
 		coqEnvs = append(coqEnvs, fmt.Sprintf("mkEnv1 %s (Some (%s, %s)) 1%%nat false %s", chex([]byte("body")), bp.coq(), ep.coq(), vh.CoqList(coqCols)))
@@ -1282,7 +1397,11 @@ func (h *H) fixed1Case() {
 		h.sum.Hist("line>4096")
 	}
 	h.judge(kind, desc, obs, exp, ntf(cols))
-	term := fmt.Sprintf("CaseFixed1 %s %s %s", strings.ReplaceAll(vh.CoqList(coqEnvs), "%NAME%", chex([]byte(name))), chex(input), coqOuts(obs))
+	envsTerm := strings.ReplaceAll(vh.CoqList(coqEnvs), "%NAME%", chex([]byte(name)))
+	for i, c := range cols {
+		envsTerm = strings.ReplaceAll(envsTerm, "%COL"+fmt.Sprint(i)+"%", c.coq(len(input)+64))
+	}
+	term := fmt.Sprintf("CaseFixed1 %s %s %s", envsTerm, chex(input), coqOuts(obs))
 	desc["observed"] = outStrings(obs)
 	h.cw.Add(term, desc)
 	h.sum.Sample(desc)
@@ -1388,7 +1507,7 @@ func main() {
 			h.replayFile(f, false)
 		}
 	}
-	total := o.Count(3000, 100000)
+	total := o.Count(2500, 100000)
 	h.cw.PerFile = 14 // the alignment families are heavy cases: spread them over several shards
 	h.fixed2AlignFamilies()
 	h.cw.Flush()
